@@ -22,7 +22,9 @@ RULE = ("histories of 1..3 instants with 1..3 error sources each (handler error 
         "errors, a CBlock function raising, a CBlock whose on_output event hits a raising handler, a failing "
         "monitored block task, bare simtask.cancel(), shutdown() in a task, SIGTERM and failing/ending supporting "
         "coroutines in run() mode), optionally abort() before the start or a failing synchronous init routine, "
-        "optionally with blocks whose async init / state restoration / stop / stop_async fail (harmless); all "
+        "optionally with blocks whose async init / state restoration / stop / stop_async fail, a persistent block that "
+        "is still uninitialised when the states are saved, two asynchronous clean-ups of which the one with the "
+        "shorter timeout times out (all harmless); all "
         "orderings of all pairs of source kinds in one instant are enumerated (thorough: all ordered triples and quadruples in one instant and all [a],[b,c] two-instant histories as well), "
         "multi-instant histories are random; distinct = hash of (lines, trace); non-trivial = at least one fatal source fired")
 ASSUMPTIONS = [
@@ -103,8 +105,13 @@ def scenarios(rng, tier):
         yield mk(mode, [], init_err=True)
         yield mk(mode, [['handlerErr']], pre_abort='x')
         yield mk(mode, [], pre_abort='x', init_err=True)
-        for h in (['asyncinit'], ['restore'], ['stop'], ['stopasync'], ['asyncinit', 'restore', 'stop', 'stopasync']):
+        yield mk(mode, [], init_err=True, harmless=['lateuninit'])
+        yield mk(mode, [['handlerErr']], init_err=True, harmless=['lateuninit', 'twostop'])
+        for h in (['asyncinit'], ['restore'], ['stop'], ['stopasync'], ['asyncinit', 'restore', 'stop', 'stopasync'],
+                  ['lateuninit'], ['twostop'], ['lateuninit', 'twostop', 'restore']):
             yield mk(mode, [], harmless=h)
+            yield mk(mode, [['abortX']], harmless=h)
+            yield mk(mode, [['shutdownTask']], harmless=h)
             yield mk(mode, [['paramErr', 'unknownEvt']], harmless=h)
             yield mk(mode, [['handlerErr']], harmless=h)
             yield mk(mode, [['abortC']], harmless=h)
@@ -129,7 +136,8 @@ def scenarios(rng, tier):
                 break
         else:
             continue
-        harmless = [h for h in ('asyncinit', 'restore', 'stop', 'stopasync') if rng.random() < 0.15]
+        harmless = [h for h in ('asyncinit', 'restore', 'stop', 'stopasync', 'lateuninit', 'twostop')
+                    if rng.random() < 0.15]
         pre = rng.choice([None] * 12 + ['x', 'c'])
         yield mk(mode, instants, pre_abort=pre, init_err=rng.random() < 0.04, harmless=harmless)
 
@@ -284,6 +292,34 @@ class BadStopAsync(edzed.AddonAsync, edzed.SBlock):
         raise RuntimeError('src904')
 
 
+class LatePersist(edzed.AddonPersistence, edzed.SBlock):
+    """persistent block created AFTER the block whose init routine fails: still uninitialised when the
+    simulation is stopped by that error, so get_state() raises while the states are saved (harmless: logged)"""
+    def init_regular(self):
+        self.set_output(7)
+
+    def get_state(self):
+        if not self.is_initialized():
+            raise edzed.EdzedInvalidState(f"get_state() on uninitialized block {self}")
+        return self.output
+
+    def _restore_state(self, state):
+        self.set_output(state)
+
+
+class SlowStop(edzed.AddonAsync, edzed.SBlock):
+    """clean-up of a given duration; with a shorter stop_timeout it is a (harmless) timeout"""
+    def __init__(self, *args, duration, **kwargs):
+        self._dur = duration
+        super().__init__(*args, **kwargs)
+
+    def init_regular(self):
+        self.set_output(None)
+
+    async def stop_async(self):
+        await asyncio.sleep(self._dur)
+
+
 def _raise_if(v):
     if v:
         raise RuntimeError(f'src{v}')
@@ -320,8 +356,17 @@ def build(scn):
         BadStop('bad_stop')
     if 'stopasync' in h:
         BadStopAsync('bad_sa', stop_timeout=1)
+    if 'twostop' in h:
+        # the routine with the LONGER timeout ends after the shorter timeout has elapsed, while the
+        # short-timeout routine is still running (times out)
+        SlowStop('slow_a', duration=0.2, stop_timeout=0.05)
+        SlowStop('slow_b', duration=0.1, stop_timeout=1.0)
     if scn['init_err']:
         BadInit('bad_init')
+    if 'lateuninit' in h:
+        if circuit.persistent_dict is None:
+            circuit.set_persistent_data({})
+        LatePersist('late_p', persistent=True)
     return ctx
 
 
